@@ -78,8 +78,11 @@ def gen_static_case(rng: random.Random):
                     edits.append({"op": "write", "path": p, "content": text(p)})
             elif kind == "env":
                 n = rng.choice(envs)
-                nextval[n] += 1          # always a fresh value (see finding F6)
-                v = None if rng.random() < 0.15 and nextval[n] > 1 else f"{n.lower()}{nextval[n]}"
+                if rng.random() < 0.35:  # back to an earlier value (A -> B -> A, D30)
+                    v = rng.choice([None, f"{n.lower()}0", f"{n.lower()}1"])
+                else:
+                    nextval[n] += 1
+                    v = f"{n.lower()}{nextval[n]}"
                 cur_env[n] = v
                 edits.append({"op": "setenv", "name": n, "value": v})
         history.append({"edits": edits})
